@@ -233,7 +233,8 @@ class Sustain(Constraint):
                 for i in range(0, len(levels), sustain_count):
                     if f.applies_to_trial(i//sustain_count + 1):
                         level = levels[i]
-                        for j in range(1, sustain_count):
+                        # The last group can be cut short by the end of the sequence
+                        for j in range(1, min(sustain_count, len(levels) - i)):
                             if levels[i+j] != level:
                                 return False
         return True
